@@ -121,7 +121,7 @@ DETECT.update({
 # recovery code, second entries to a mechanism, multi-step sequences, non-determinism) ----
 DETECT.update({
     "C01-f": (["C01"], "DETECTED", "pool graph keeps one child edge per pending parent: dependants survive the rollback of their parent"),
-    "C01-g": (["C01", "C02"], "MISSED", "needed peer blocks whose first transaction lacks the read-set entry of a key it deletes (txmut dropread): only a block can deliver such a transaction, and only its later undo shows the damage"),
+    "C01-g": (["C01"], "MISSED", "needed peer blocks whose first transaction lacks the read-set entry of a key it deletes (txmut dropread): only a block can deliver such a transaction, and only its later undo shows the damage"),
     "C02-f": (["C02"], "DETECTED", "pending transaction registered in the graph under its first input only (same family as C01-f)"),
     "C02-g": (["C02"], "DETECTED", "undoPayFee evicts the cache entry under the fee placeholder (same idea as C01-b)"),
     "C03-f": (["C03"], "DETECTED", "UtxoCache.remove looks in the Available view: a selected-then-spent output stays selectable"),
